@@ -184,6 +184,26 @@ class Normalizer:
             ty = n.get("ty")
             if v is not None and (_fits(v, ty) if ty in INT_BITS else 0 <= v < (1 << 64)):
                 return _lit(v, n, "NF2")
+        # NF19: (x as T) | (e << k)  with x of an unsigned type of at most k bits  ->  (x as T) + (e << k)
+        # (disjoint bit ranges: or is add; the additive spelling is the one the header parsers use)
+        if op == "|" and n.get("ty") in UNSIGNED:
+            def low_bits(e):
+                e = _peel_block(e)
+                if isinstance(e, dict) and e.get("k") == "Cast" and isinstance(e.get("e"), dict) and e["e"].get("ty") in UNSIGNED:
+                    return INT_BITS[e["e"]["ty"]]
+                if isinstance(e, dict) and e.get("ty") in ("u8", "u16") and e.get("k") in ("Index", "Local", "Field"):
+                    return INT_BITS[e["ty"]]
+                return None
+
+            def shift_of(e):
+                e = _peel_block(e)
+                if isinstance(e, dict) and e.get("k") == "Binary" and e.get("op") == "<<" and _int(e["r"]) is not None:
+                    return _int(e["r"])
+                return None
+            for lo, hi in ((n["l"], n["r"]), (n["r"], n["l"])):
+                w, k_ = low_bits(lo), shift_of(hi)
+                if w is not None and k_ is not None and k_ >= w:
+                    return dict(n, op="+", nf="NF19")
         # NF9: unsigned x / 2^k -> x >> k ; x % 2^k -> x & (2^k - 1) ; x * 2^k -> x << k   (value-preserving where the
         # product does not overflow; the overflow behaviour of `*` is not what the layout / bound rules read)
         if op in ("/", "%", "*") and (_unsigned(n["l"]) or _unsigned(n["r"]) or _unsigned(n)):
